@@ -1,7 +1,9 @@
 #include "common.h"
+void scen_c01(mt_case *);
 void scen_c04(mt_case *);
 void scen_c05(mt_case *);
 const mt_scenario mt_scenarios[] = {
+  { 1, "C01 create/join", scen_c01 },
   { 4, "C04 mutex", scen_c04 },
   { 5, "C05 condition variables", scen_c05 },
 };
